@@ -229,8 +229,17 @@ def run(ctx: Ctx, tier: str) -> Result:
     tryx = [f for f in api if f.name == "try_evaluate_expression"]
     if evx and tryx:
         rr_ = [r for r in t.nodes_in(evx[0], ast.Return) if r.value is not None]
-        okv = len(rr_) == 1 and isinstance(rr_[0].value, ast.Subscript) and norm(rr_[0].value.slice) == "1" and isinstance(rr_[0].value.value, ast.Call) \
-            and tryx[0] in t.resolve_call(rr_[0].value.value, evx[0]).repo and [norm(a_) for a_ in rr_[0].value.value.args] == [evx[0].params[1]]
+        okv = False
+        if len(rr_) == 1:
+            v_ = rr_[0].value
+            call_, idx_ = None, None
+            if isinstance(v_, ast.Subscript) and isinstance(v_.value, ast.Call):
+                call_, idx_ = v_.value, norm(v_.slice)
+            elif isinstance(v_, ast.Name):
+                bs_ = [b for k, b in t.local_bindings(evx[0], v_.id) if k == "assign"]
+                if len(bs_) == 1 and isinstance(bs_[0][1], ast.Call):
+                    call_, idx_ = bs_[0][1], str(bs_[0][2])
+            okv = call_ is not None and idx_ == "1" and tryx[0] in t.resolve_call(call_, evx[0]).repo and [norm(a_) for a_ in call_.args] == [evx[0].params[1]]
         if okv:
             res.ok("C10.SCOPE", {"evaluate_expression": "value part of try_evaluate_expression(expression)"})
         else:
@@ -346,11 +355,9 @@ def evaluation_api(ctx: Ctx, ev):
                 continue
             rets = [n for n in ctx.types.nodes_in(f, ast.Return) if n.value is not None]
             stmts = [s_ for s_ in f.node.body if not (isinstance(s_, ast.Expr) and isinstance(s_.value, ast.Constant))]
-            if len(rets) == 1 and len(stmts) == 1:
-                v = rets[0].value
-                if isinstance(v, ast.Subscript):
-                    v = v.value
-                if isinstance(v, ast.Call) and any(x in api for x in ctx.types.resolve_call(v, f).repo):
-                    api.append(f)
-                    changed = True
+            calls = list(ctx.types.calls_in(f))
+            if len(rets) == 1 and len(stmts) <= 2 and len(calls) == 1 and any(x in api for x in ctx.types.resolve_call(calls[0], f).repo):
+                # `return api(expr)[i]`, or `a, b = api(expr); return b`
+                api.append(f)
+                changed = True
     return api
